@@ -102,3 +102,31 @@ Fixpoint no_adjacent_text (ns : list tnode) : bool :=
   | _ :: r => no_adjacent_text r
   | [] => true
   end.
+
+(* What a parser makes of the serialised children (save + load, or any XML consumer):
+   a CDATA section arrives as character data, character data that stands side by side
+   arrives as one text node, and an empty text node leaves no trace. *)
+Fixpoint merge_text (ns : list tnode) : list tnode :=
+  match ns with
+  | [] => []
+  | TText a :: r =>
+      match merge_text r with
+      | TText b :: r' => TText (a ++ b) :: r'
+      | m => match a with [] => m | _ => TText a :: m end
+      end
+  | n :: r => n :: merge_text r
+  end.
+Fixpoint reparse_node (n : tnode) : tnode :=
+  match n with
+  | TCData s => TText s
+  | TOther kids => TOther (merge_text (map reparse_node kids))
+  | x => x
+  end.
+Definition reparse (ns : list tnode) : list tnode := merge_text (map reparse_node ns).
+(* extractText skips CDATA sections; a tree that holds none reads the same before and after *)
+Fixpoint no_cdata_node (n : tnode) : bool :=
+  match n with
+  | TCData _ => false
+  | TOther kids => forallb no_cdata_node kids
+  | _ => true
+  end.
